@@ -64,6 +64,9 @@ def gen_workload(rng):
         elif r < 0.75:
             steps.append({"op": "dequeue", "batch": rng.choice([1, 2, 3])})
             leases += 1
+        elif r < 0.82:
+            # a lease batch in which no lease is live (a consumer answering after its leases were given to someone else)
+            steps.append({"op": "stalebatch", "kind": rng.choice(["ack", "nack", "dead"])})
         elif leases > 0:
             steps.append({"op": rng.choice(["ack", "ack", "nack", "dead", "extend"]), "ref": [rng.randrange(leases), rng.choice([0, 0, 1])]})
         else:
@@ -149,6 +152,13 @@ def do_step(base, st, deq_results):
             return s, _js(d)
         if st["op"] == "dequeue":
             s, d = http_req(base + 1, "POST", "/pull/p/dequeue", json.dumps({"batch": st["batch"], "lease_ttl": "1500ms"}),
+                            {"Authorization": "Bearer " + PTOK, "Content-Type": "application/json"})
+            return s, _js(d)
+        if st["op"] == "stalebatch":
+            body = {"lease_ids": ["lease_00000000000000a1", "lease_00000000000000a2"]}
+            if st["kind"] == "dead":
+                body.update({"dead": True, "reason": "boom"})
+            s, d = http_req(base + 1, "POST", "/pull/p/" + ("ack" if st["kind"] == "ack" else "nack"), json.dumps(body),
                             {"Authorization": "Bearer " + PTOK, "Content-Type": "application/json"})
             return s, _js(d)
         # lease ops
@@ -537,6 +547,9 @@ def model_states(ctx, cases):
                     leases[it["lease_id"]] = len(leases) + 1
                     picks.append("(%s, %s)" % (Q.cN(idn(it["marker"])), Q.cN(leases[it["lease_id"]])))
                 ops.append("(Dequeue %d (Some 1%%N) None %d 1500000000, mkOracle [%s] [] [] [])" % (now, st["batch"], "; ".join(picks)))
+            elif st["op"] == "stalebatch" and s is not None:
+                kind = {"ack": "KAck", "nack": "(KNack 0)", "dead": "(KDead 4%N)"}[st["kind"]]
+                ops.append("(LeaseBatch %d %s [LUnknown; LUnknown], %s)" % (now, kind, o))
             elif st["op"] in ("ack", "nack", "dead", "extend") and s is not None:
                 l = leases.get(rec.get("lease", ""))
                 lref = "(LKnown %s false)" % Q.cN(l) if l else "LUnknown"
@@ -592,6 +605,11 @@ def main(ctx, replay):
     n_workloads = 3 if ctx.tier == "quick" else 16
     per_workload = 80 if ctx.tier == "quick" else 600
     workloads = [gen_workload(rng) for _ in range(n_workloads)]
+    # a fixed workload: traffic acknowledged after a lease batch that names no live lease
+    workloads.append([{"op": "ingress", "route": "pull", "marker": "s1"}, {"op": "dequeue", "batch": 1},
+                      {"op": "stalebatch", "kind": "ack"}, {"op": "ingress", "route": "pull", "marker": "s2"},
+                      {"op": "stalebatch", "kind": "nack"}, {"op": "publish", "items": [{"id": "pub-s-0", "marker": "s3_0"}, {"id": "pub-s-1", "marker": "s3_1"}]},
+                      {"op": "ingress", "route": "fan", "marker": "s4"}, {"op": "ack", "ref": [0, 0]}, {"op": "ingress", "route": "pull", "marker": "s5"}])
     port0 = 12000 + (os.getpid() % 18) * 1000       # below the ephemeral port range
     evaluations = 0
     nontrivial = set()
@@ -689,7 +707,7 @@ def main(ctx, replay):
         "kills_by_source_position": dict(sorted(kill_labels.items(), key=lambda kv: -kv[1])[:40]),
         "workloads": n_workloads,
         "input_distribution": {"steps_per_workload": [len(w) for w in workloads],
-                               "op_histogram": {k: sum(1 for w in workloads for s in w if s["op"] == k) for k in ("ingress", "publish", "dequeue", "ack", "nack", "dead", "extend")}},
+                               "op_histogram": {k: sum(1 for w in workloads for s in w if s["op"] == k) for k in ("ingress", "publish", "dequeue", "ack", "nack", "dead", "extend", "stalebatch")}},
     })
     assumptions = [
         "a crash is the death of the process (SIGKILL at a crash point inserted before/after every DB statement, Store call and response write); power-loss durability of a "
